@@ -66,6 +66,32 @@ theorem runN_one_single (step : T → Action T V E) (hs : NoSpawn step) (r : Run
     simp only [Bool.false_eq_true, if_false, loop]
     exact ⟨trivial, hp⟩
 
+/-- `run_n_steps(1)` on a lone runnable thread, exactly -/
+theorem runN_one_exact (step : T → Action T V E) (r : Runtime T V E) (m : Thread T E)
+    (hn : r.newThreads = []) (hq : r.runQueue = [m]) (hc : m.canRun = true) :
+    runN step 1 r =
+      (if (finishThreadTurn (exec step { r with runQueue := [] } m).1 (exec step { r with runQueue := [] } m).2).2 then
+        ⟨(finishThreadTurn (exec step { r with runQueue := [] } m).1 (exec step { r with runQueue := [] } m).2).1, .done, 1, true⟩
+       else if (drainNewThreads (finishThreadTurn (exec step { r with runQueue := [] } m).1 (exec step { r with runQueue := [] } m).2).1).2 then
+        ⟨(drainNewThreads (finishThreadTurn (exec step { r with runQueue := [] } m).1 (exec step { r with runQueue := [] } m).2).1).1, .done, 1, true⟩
+       else
+        ⟨(drainNewThreads (finishThreadTurn (exec step { r with runQueue := [] } m).1 (exec step { r with runQueue := [] } m).2).1).1,
+         updateStatus (drainNewThreads (finishThreadTurn (exec step { r with runQueue := [] } m).1 (exec step { r with runQueue := [] } m).2).1).1,
+         1, false⟩) := by
+  have hd : NoDone r := by
+    refine ⟨?_, by simp [hn]⟩
+    simp [hq]; exact canRun_done hc
+  have hnc : (!m.canRun) = false := by simp [hc]
+  unfold runN roundRobin
+  simp only [drain_nil r hn, Bool.false_eq_true, if_false]
+  rw [loop_succ step 0 0 r hn hd]
+  simp only [hq, List.dropWhile, hnc, List.takeWhile, List.append_nil]
+  split
+  · simp
+  · split
+    · simp
+    · simp [loop]
+
 theorem serviceList_noPending (host : H → Nat → T → H × T) (h : H) (q : List (Thread T E))
     (hq : ∀ t ∈ q, t.pending = none) : serviceList host h q = (h, q) := by
   induction q generalizing h with
